@@ -331,7 +331,6 @@ class PrintWorld(Renderer):
 
     def _refresh_config_models(self):
         """Called when a SETTINGS_UPDATED event is *delivered*: the models follow the plugin's cache."""
-        self.at.set_actions(self._setting("atCommandActions", DEFAULT_AT_ACTIONS))
         self.defer.set_modes(self._modes_from_settings())
         self.enter_lines = split_script(self._setting("enteringExcludedRegionGcode", None)) or []
         self.exit_lines = split_script(self._setting("exitingExcludedRegionGcode", None)) or []
@@ -341,6 +340,11 @@ class PrintWorld(Renderer):
         self.g90e = g
         self.U.g90e = g
         self.F.g90e = g
+        try:
+            # (read last by the plugin's handler: everything above is already in effect when this fails)
+            self.at.set_actions(self._setting("atCommandActions", DEFAULT_AT_ACTIONS))
+        except (ValueError, re.error, KeyError, TypeError):
+            self.stats["probe:at_config_rejected"] += 1
 
     def _refresh_regions(self):
         self.regions = [norm_region(r.toDict()) for r in self.plugin.state.excludedRegions]
@@ -857,7 +861,7 @@ class PrintWorld(Renderer):
                     and k not in ("home", "units", "mode"):
                 self._apply_encoding(enc)
             for line in self.render(op):
-                self.comm.send_file_line(line)
+                self.comm.send_file_line(line, src=("terminal" if op.get("via") == "terminal" else "file"))
             self._after_pump()
             rec = self.op_records.get(self.op_index)
             if rec is not None and self.F.homed():
